@@ -20,6 +20,7 @@ PROPS = ["MxlVerif.Props.C05"]
 F_HOMODIMER = "F-C05-1"
 F_ZEROLABEL = "F-C05-2"
 F_DANGLING = "F-C05-4"
+F_UNCOVERED = "F-C05-5"
 
 # --------------------------------------------------------------------------- wire helpers
 
@@ -794,12 +795,13 @@ def judge_case(ctx, case, R, M):
     # 1b. reactions without a label map: passed through untouched; labelled compounds they change dangle
     ctx.judge(sub, R["uraw"], spec_unmapped(case), None if M is None else M["uraw"],
               what="reactions without a label map: own name, totals as arguments, stoichiometry untouched")
-    if cov:  # (a map that does not cover the product atoms leaves dangling product names of its own: outside the domain)
-        # a labelled model that was built can be evaluated - except finding F-C05-4: an unmapped reaction that changes
-        # a compound with label positions leaves a dangling name (R = M = KeyError, class = spec_dangling)
-        ctx.judge(sub, R["evaluates"], {"ok": True}, None if M is None else M["evaluates"],
-                  finding=F_DANGLING if spec_dangling(case) else None,
-                  what="the labelled model that build_model returned evaluates at its initial state")
+    # a labelled model that was built can be evaluated - except two finding classes (R = M = KeyError):
+    # F-C05-4 an unmapped reaction changes a compound with label positions (class = spec_dangling);
+    # F-C05-5 a map covers the substrates but not the product atoms (class = not covers_products): the product names
+    #         cut from the too short product string are no variables of the labelled model
+    ctx.judge(sub, R["evaluates"], {"ok": True}, None if M is None else M["evaluates"],
+              finding=(F_UNCOVERED if not cov else (F_DANGLING if spec_dangling(case) else None)),
+              what="the labelled model that build_model returned evaluates at its initial state")
     ru = raw_unmapped(case)
     if ru:
         # their coefficients are compared above as written; the integer reaction lists below leave them out
